@@ -423,6 +423,9 @@ class Sampler():
             limits were reached and True otherwise.
 
         """
+        if not isinstance(discard_exploration, bool):
+            raise ValueError("'discard_exploration' must be a bool.")
+
         t_start = time()
 
         if verbose:
